@@ -20,9 +20,10 @@ ASSUMPTIONS = ['merge model and $output model in harness/bv/model.py',
                'which error is reported for markers other than $required is not judged']
 
 # markers that can never be valid where they are injected (map value / list entry of a non-root container)
-PASSIVE_VALUES = ['$required', '$foo', '$mtach', '$output', '$match', '$value', '$invert', '$encode', '$decode', '$delete2', '$requiredx', '$r']
+PASSIVE_VALUES = ['$required', '$foo', '$mtach', '$output', '$match', '$value', '$invert', '$encode', '$decode', '$delete2', '$requiredx', '$r',
+                  '$encode:base64', '$output:false', '$repeat:3', '$required:x', '$foo:bar', '$delete.x', '$r-x', '$a b', '$match: {}', '$é', '$x\ny']
 ACTIVE_VALUES = ['$repeat', '$env:VERIF_UNSET_VARIABLE', '$merge:no.such.path', '$replace:no.such.path']
-PASSIVE_KEYS = [{'$foo': 1}, {'$mtach': {'a': 1}}, {'$required': 1}, {'$invert': True, 'z': 1}, {'$output': 'yes'}, {'$output': 1}, {'$matchh': 1},
+PASSIVE_KEYS = [{'$mach:x': 1}, {'$foo bar': 1}, {'$output:false': 2}, {'$foo': 1}, {'$mtach': {'a': 1}}, {'$required': 1}, {'$invert': True, 'z': 1}, {'$output': 'yes'}, {'$output': 1}, {'$matchh': 1},
                 {'$delete': 1, 'zz': 2}]
 ACTIVE_KEYS = [{'$repeat': 'x', 'z': 1}, {'$repeat': 1.5}, {'$encode': 5, 'z': 1}, {'$encode': 'nosuchformat', 'z': 1}, {'$decode': 'json'}, {'$value': 1, 'extra': 2},
                {'$merge': 5}, {'$replace': 5}, {'$merge': 'no.such.path'}, {'$decode': 'json', '$value': 5}]
